@@ -1,11 +1,21 @@
 (* Props/C17.v — C17: the de Bruijn-grid generator yields a planar edge-to-edge rhombus tiling.
-   PARTIAL, checker-level: the generator (cos/sin/inv/argsort on irrational data) is not modelled; the theorems
-   state what the exact checker check_rhombus_tiling establishes about an output lattice when it answers [true].
-   The harness runs the extracted checker on every generated output.  NOT covered by a theorem: "for all offsets"
-   (explored, not proved); that the plaquettes found by Lattice.find_all_plaquettes are all bounded faces (Euler's
-   theorem / C01); the 36/72 degree classification for five bundles (python census in the harness). *)
+   PARTIAL.  Two groups of theorems:
+   (a) checker level: what the exact checker check_rhombus_tiling establishes about an output lattice when it answers [true]
+       (the harness runs the extracted checker on every generated output), incl. the tolerance version of "rhombus";
+   (b) the dual construction itself (Model/DeBruijn.v: grid lines, intersection by Cramer's rule, find_pent_index,
+       map_to_position, the clipping window, over Q with abstract direction vectors): the four vertices produced for the four
+       cells touching an intersection of a line of bundle i with a line of bundle j form a parallelogram with sides exactly
+       e_i, e_j (a rhombus for unit star vectors), for ANY points in those cells, and such points exist at every generic
+       intersection.  The correspondence run evaluates the same functions on the arrays the running generator passes from
+       its grid stage to its dual stage (floats as exact dyadics) and compares index vectors, window, positions.
+   NOT covered by a theorem: that the point koala uses for a grid face (average of its corners) lies in that face's cell
+   (checked per face by the proved certificate quad_steps instead); argsort/edge construction of the grid graph, make_dual,
+   clipping and trailing-edge removal as a whole ("for all offsets" is explored, not proved); that the plaquettes found by
+   Lattice.find_all_plaquettes are all bounded faces (Euler's theorem / C01); the 36/72 degree classification for five
+   bundles (python census in the harness). *)
 From Coq Require Import List ZArith Bool Arith QArith.
 From Koala Require Import Model.Lattice Model.Tiling2 Proofs.Tiling2Facts.
+From Koala Require Import Model.DeBruijn Proofs.DeBruijnFacts Proofs.RhombusTol.
 Import ListNotations.
 Open Scope Z_scope.
 
@@ -59,6 +69,109 @@ Print Assumptions C17_check_rhombus_tiling_sound.
 Theorem C17_euler_count : forall V E F : Z, V - E + F = 1 <-> F = E - V + 1.
 Proof. exact euler_count. Qed.
 Print Assumptions C17_euler_count.
+
+(* clause "every plaquette is a rhombus", tolerance version (floats): four squared side lengths within E/td of l0 bound the
+   parallelogram defect w = P0+P2-P1-P3 by |w|^2 X^2 td^2 <= 8 E^2 (|D1|^2+|D2|^2), D1, D2 the diagonals, X = D1 x D2
+   (for a rhombus of side l and angle theta: |w|/l <= 2 sqrt2 (E/td/l^2) / sin theta) *)
+Theorem C17_rhombus_tol : forall (P0 P1 P2 P3 : vec) (l0 td E : Z),
+  0 < td ->
+  Z.abs (norm2 (vsub P1 P0) - l0) * td <= E ->
+  Z.abs (norm2 (vsub P2 P1) - l0) * td <= E ->
+  Z.abs (norm2 (vsub P3 P2) - l0) * td <= E ->
+  Z.abs (norm2 (vsub P0 P3) - l0) * td <= E ->
+  let w := vsub (vadd P0 P2) (vadd P1 P3) in
+  let D1 := vsub P2 P0 in let D2 := vsub P3 P1 in
+  norm2 w * (vcross D1 D2 * vcross D1 D2) * (td * td) <= 8 * (E * E) * (norm2 D1 + norm2 D2).
+Proof. exact rhombus_tol. Qed.
+Print Assumptions C17_rhombus_tol.
+
+(* the same with the checker's relative tolerance (what lengths_ok establishes for the four sides of a face) *)
+Theorem C17_rhombus_tol_rel : forall (P0 P1 P2 P3 : vec) (l0 tn td : Z),
+  0 < td ->
+  Z.abs (norm2 (vsub P1 P0) - l0) * td <= tn * l0 ->
+  Z.abs (norm2 (vsub P2 P1) - l0) * td <= tn * l0 ->
+  Z.abs (norm2 (vsub P3 P2) - l0) * td <= tn * l0 ->
+  Z.abs (norm2 (vsub P0 P3) - l0) * td <= tn * l0 ->
+  let w := vsub (vadd P0 P2) (vadd P1 P3) in
+  let D1 := vsub P2 P0 in let D2 := vsub P3 P1 in
+  norm2 w * (vcross D1 D2 * vcross D1 D2) * (td * td) <= 8 * (tn * l0 * (tn * l0)) * (norm2 D1 + norm2 D2).
+Proof. exact rhombus_tol_rel. Qed.
+Print Assumptions C17_rhombus_tol_rel.
+
+(* ---- the dual construction itself (Model/DeBruijn.v: quasicrystals.py:70-75, 96-107, 148-150, 164-175, 179 over Q with
+   abstract direction vectors; tied to the code by the correspondence run on the arrays the code passes around) ---- *)
+Open Scope Q_scope.
+
+(* the intersection point computed by the code's formula (Cramer / la.inv) lies on both grid lines: in the coordinates of
+   find_pent_index it sits exactly at the integers li and lj *)
+Theorem C17_grid_vertex_on_lines : forall g i li j lj nu0 nu1 P,
+  grid_ok g -> (i < n_bundles g)%nat -> (j < n_bundles g)%nat ->
+  grid_vertex g i li j lj = Some (nu0, nu1, P) ->
+  cell_coord g i (scaled g P) == inject_Z (Z.of_nat li) /\
+  cell_coord g j (scaled g P) == inject_Z (Z.of_nat lj) /\
+  ~ qv_cross (grad g i) (grad g j) == 0.
+Proof. exact grid_vertex_on_lines. Qed.
+Print Assumptions C17_grid_vertex_on_lines.
+
+(* THE ALGEBRAIC HEART: for ANY four points in the four cells touching the intersection of line li of bundle i with line lj
+   of bundle j (any directions, offsets, scaling; the other bundles arbitrary), map_to_position(find_pent_index(.)) gives a
+   parallelogram whose sides are exactly the star vectors e_i and e_j *)
+Theorem C17_dual_parallelogram : forall g i j li lj Ps q00 q10 q11 q01,
+  length (g_normals g) = n_bundles g -> (i < n_bundles g)%nat -> (j < n_bundles g)%nat -> i <> j ->
+  in_cell g i j li lj Ps 0 0 q00 -> in_cell g i j li lj Ps 1 0 q10 ->
+  in_cell g i j li lj Ps 1 1 q11 -> in_cell g i j li lj Ps 0 1 q01 ->
+  let V := dual_vertex g in
+  qv_eq (V q10) (qv_add (V q00) (grad g i)) /\ qv_eq (V q11) (qv_add (V q01) (grad g i)) /\
+  qv_eq (V q01) (qv_add (V q00) (grad g j)) /\ qv_eq (V q11) (qv_add (V q10) (grad g j)).
+Proof. exact dual_parallelogram. Qed.
+Print Assumptions C17_dual_parallelogram.
+
+(* the hypotheses of C17_dual_parallelogram are inhabited at EVERY generic intersection (no third bundle has a line through
+   it): four points, one in each of the four cells touching the intersection, exist (explicit small displacements) *)
+Theorem C17_generic_cells_exist : forall g i j li lj nu0 nu1 P,
+  grid_ok g -> (i < n_bundles g)%nat -> (j < n_bundles g)%nat -> i <> j ->
+  grid_vertex g i li j lj = Some (nu0, nu1, P) ->
+  generic_at g i j (scaled g P) ->
+  exists q00 q10 q11 q01,
+    in_cell g i j li lj (scaled g P) 0 0 q00 /\ in_cell g i j li lj (scaled g P) 1 0 q10 /\
+    in_cell g i j li lj (scaled g P) 1 1 q11 /\ in_cell g i j li lj (scaled g P) 0 1 q01.
+Proof. exact generic_cells_exist. Qed.
+Print Assumptions C17_generic_cells_exist.
+
+(* ... a rhombus when the star vectors are unit vectors: all four sides have squared length 1 *)
+Theorem C17_dual_rhombus : forall g i j li lj Ps q00 q10 q11 q01,
+  grid_ok g -> (i < n_bundles g)%nat -> (j < n_bundles g)%nat -> i <> j ->
+  in_cell g i j li lj Ps 0 0 q00 -> in_cell g i j li lj Ps 1 0 q10 ->
+  in_cell g i j li lj Ps 1 1 q11 -> in_cell g i j li lj Ps 0 1 q01 ->
+  let V := dual_vertex g in
+  qv_norm2 (qv_sub (V q10) (V q00)) == 1 /\ qv_norm2 (qv_sub (V q11) (V q10)) == 1 /\
+  qv_norm2 (qv_sub (V q01) (V q11)) == 1 /\ qv_norm2 (qv_sub (V q00) (V q01)) == 1.
+Proof. exact dual_rhombus. Qed.
+Print Assumptions C17_dual_rhombus.
+
+(* index-level certificate run on every face of every generated tiling: if the four index vectors met around a face are
+   K, K + s e_i, K + s e_i + t e_j, K + t e_j (i <> j, s, t = +-1) then the four positions map_to_position gives form a
+   parallelogram with sides exactly s*star_i and t*star_j *)
+Theorem C17_quad_steps_sound : forall stars B K0 K1 K2 K3 i s j t,
+  quad_steps B K0 K1 K2 K3 = Some (i, s, (j, t)) ->
+  let V := map_to_position stars in
+  let ei := qv_scale (inject_Z s) (nth i stars qv_zero) in
+  let ej := qv_scale (inject_Z t) (nth j stars qv_zero) in
+  i <> j /\ (s = 1 \/ s = -1)%Z /\ (t = 1 \/ t = -1)%Z /\
+  qv_eq (V K1) (qv_add (V K0) ei) /\ qv_eq (V K2) (qv_add (V K1) ej) /\
+  qv_eq (V K2) (qv_add (V K3) ei) /\ qv_eq (V K3) (qv_add (V K0) ej).
+Proof. exact quad_steps_sound. Qed.
+Print Assumptions C17_quad_steps_sound.
+
+(* the function the correspondence driver evaluates on the generator's own arrays is literally composed of the functions
+   the theorems above are about (find_pent_index, the window test, map_to_position) *)
+Theorem C17_db_eval_spec : forall n sc starts normals stars q,
+  db_eval n sc starts normals stars q =
+  (pent_index_raw sc starts normals q, point_margin sc starts normals q,
+   in_window n (pent_index_raw sc starts normals q), dual_vertex_raw sc starts normals stars q).
+Proof. exact db_eval_spec. Qed.
+Print Assumptions C17_db_eval_spec.
+Close Scope Q_scope.
 
 (* ---- non-vacuity: koala's actual output de_brujin_grid(5, 3) (43 vertices, 72 edges, 30 rhombi; float64
    positions as exact dyadics), tolerance 1e-9, star directions of 3 bundles: the checker accepts *)
